@@ -10,7 +10,7 @@ from .. import env, refmath
 
 ID = "C05"
 LEVEL = "exploration"
-BUDGET = {"quick": 2400, "thorough": 40000}
+BUDGET = {"quick": 1600, "thorough": 40000}
 SHARDS = {"quick": 8, "thorough": 16}
 RULE = (
     "case = sampler class (MiniPCNSMC, EmceeSMC, BlackJAXSMC.log_prob, MiniPCN, Emcee) x preconditioning (none, periodic, "
@@ -66,6 +66,10 @@ def _case(draw):
         "mode": "run" if (sampler in ("smc", "emcee_smc") and "affine" not in pre and draw(st.integers(0, 5)) == 0) else "direct",
         "seed": draw(st.integers(0, 2**31 - 1)),
     }
+    if case["mode"] == "run":
+        # optionally a run that stops at the step cap (beta < 1) and is then enlarged: the final kernel must target beta = 1
+        case["cap"] = draw(st.booleans())
+        case["n_final"] = draw(st.sampled_from([None, 20, 9]))
     return case
 
 
@@ -264,6 +268,10 @@ def run_case(case, ctx):
 
     rec = Recorder()
     a, flow, lo, hi = _make(case, rec)
+    if case["width"] == "float32":
+        # the transforms hold the bounds in the requested width: the reference must use the same stored values
+        lo = lo.astype(np.float32).astype(np.float64)
+        hi = hi.astype(np.float32).astype(np.float64)
     xp = env.xp_of(case["ns"])
     dt = env.native_dtype(case["ns"], case["width"])
     pre, kw = _precond_kwargs(case)
@@ -323,6 +331,12 @@ def _run_mode(case, ctx, a, rec, lo, hi, labels, pre, kw):
         kwargs.update(rng=np.random.default_rng(case["seed"]), sampler_kwargs={"n_steps": 2, "step_fn": "rw"})
     else:
         kwargs.update(sampler_kwargs={"nsteps": 2, "progress": False})
+    if case.get("cap"):
+        kwargs.update(adaptive=False, n_steps=5)
+        if case["sampler"] == "smc":
+            kwargs["max_n_steps"] = 2
+    if case.get("n_final"):
+        kwargs["n_final_samples"] = case["n_final"]
     try:
         samples, h = a.sample_posterior(**kwargs)
     finally:
@@ -336,8 +350,12 @@ def _run_mode(case, ctx, a, rec, lo, hi, labels, pre, kw):
     per = 3
     for bi, item in enumerate(seen):
         z, lp, calls = item[0], item[1], item[2]
-        it = min(bi // per, len(betas) - 1)
-        beta = float(item[3][0]) if len(item) > 3 else betas[it]
+        it = bi // per
+        # batches after the last loop iteration belong to the final enlargement, whose population was resampled to beta = 1
+        expected = betas[it] if it < len(betas) else 1.0
+        beta = expected
+        if len(item) > 3 and float(item[3][0]) != expected:
+            ctx.fail("run:kernel-beta", f"kernel invocation {it + 1} was handed beta={float(item[3][0])!r}, the run is at {expected!r}", case)
         r2 = Recorder()
         for k in calls:
             if calls[k] is not None:
